@@ -501,6 +501,7 @@ func (x *runner) probe(after op) {
 			if r.code != http.StatusNotFound {
 				x.trail = append(x.trail, "probe "+o.String())
 				x.fail("probe/absent-id-found-after-"+after.kind, "an ID that is not stored is found after the request", o, status(r), "404")
+				x.m.state[id] = stUnknown // reported once; stop comparing this ID
 			}
 			continue
 		}
